@@ -21,7 +21,8 @@ f32 = np.float32
 
 
 def groups(tier, seed):
-    return ["estimate:reparam", "estimate:reinforce", "estimate:overlap", "estimate:nested", "estimate:nested_overlap", "tight", "grad:reparam", "grad:reinforce", "vi:reparam:2:0.125", "vi:reparam:3:1.0",
+    return ["estimate:reparam", "estimate:reinforce", "estimate:overlap", "estimate:nested", "estimate:nested_overlap", "family:full_cov:reparam", "family:full_cov:reinforce",
+            "family:mean_field:reparam", "family:mean_field:reinforce", "tight", "grad:reparam", "grad:reinforce", "vi:reparam:2:0.125", "vi:reparam:3:1.0",
             "vi:reinforce:1:0.125", "elbo_vi:2", "mean_field"]
 
 
@@ -87,10 +88,55 @@ PHI = np.asarray([0.3, -0.2], dtype=np.float32)
 PHI2 = np.asarray([0.3, 0.8], dtype=np.float32)     # (mean, std) for the score-function family
 
 
+def family_group(g, which, est):
+    """the variational families draw from the documented normal: mean-field N(means, diag(exp(log_stds))^2),
+    full-covariance N(mean, L L') with L the given factor -- for all parameter values (site-law obligation)"""
+    from genjax.inference.vi import mean_field_normal_family, full_covariance_normal_family
+    n = 2
+    if which == "full_cov":
+        fam = full_covariance_normal_family(n, est)
+        ex = {"mean": np.asarray([0.3, -0.2], np.float32), "chol_cov": np.asarray([[1.0, 0.0], [0.9, 0.5]], np.float32)}
+    else:
+        fam = mean_field_normal_family(n, est)
+        ex = np.asarray([0.3, -0.2, 0.1, -0.4], np.float32)
+    T = g.try_trace(f"{which} family ({est}): simulate traces", lambda p: fam.simulate({}, p).get_retval(), ex)
+    if T is None:
+        return
+    g.ok(f"{which} family ({est}): one multivariate-normal site", len(T.sites) == 1, str([(s.name, s.prim_name) for s in T.sites]))
+    if len(T.sites) != 1:
+        return
+    sa, _ = gfi._site_args(T.sites[0])
+    loc, cov = sj.obj(sa[0]), sj.obj(sa[1])
+    (p_s,) = T.ins
+    if which == "full_cov":
+        mean, L = sj.obj(p_s["mean"]), sj.obj(p_s["chol_cov"])
+        want = np.empty((n, n), dtype=object)
+        for i in range(n):
+            for j in range(n):
+                want[i, j] = sum(sj.unlog(L[i, k]) * sj.unlog(L[j, k]) for k in range(n))
+        g.eq(f"full-covariance family ({est}): the site's location is the mean parameter", loc, mean)
+        g.eq(f"full-covariance family ({est}): the site's covariance is L L' for the given factor L (all L, lower-triangular or not)", cov, want)
+        wrong = np.empty((n, n), dtype=object)
+        for i in range(n):
+            for j in range(n):
+                wrong[i, j] = sum(sj.unlog(L[k, i]) * sj.unlog(L[k, j]) for k in range(n))
+        g.fault_twin("covariance-is-L'L", solve.eq_arrays(cov, wrong))
+    else:
+        p = sj.obj(p_s)
+        g.eq(f"mean-field family ({est}): the site's location is the first half of the parameters", loc, p[:n])
+        want = np.empty((n, n), dtype=object)
+        for i in range(n):
+            for j in range(n):
+                want[i, j] = sj.s_mul(sj.s_exp(sj.unlog(p[n + i])), sj.s_exp(sj.unlog(p[n + i]))) if i == j else sj.RV(0)
+        g.eq(f"mean-field family ({est}): the site's covariance is diag(exp(log_std)^2) of the second half", cov, want)
+
+
 def run_group(g, gid):
     from genjax.inference.vi import elbo_factory, optimize_vi, elbo_vi, mean_field_normal_family
     parts = gid.split(":")
     kind = parts[0]
+    if kind == "family":
+        return family_group(g, parts[1], parts[2])
     target, q_rep, q_rei = models()
     g.programs.add(gid)
     obs0, l00, l0 = f32(0.7), f32(0.1), f32(-0.3)
